@@ -537,10 +537,11 @@ psf_ftruncate (SF_PRIVATE *psf, sf_count_t len)
 	if (psf->virtual_io)
 		return -1 ;
 
-	if ((sizeof (off_t) < sizeof (sf_count_t)) && len > 0x7FFFFFFF)
+	if ((sizeof (off_t) < sizeof (sf_count_t)) && len + psf->fileoffset > 0x7FFFFFFF)
 		return -1 ;
 
-	retval = ftruncate (psf->file.filedes, len) ;
+	/* len is relative to the start of the (possibly embedded) sound file. */
+	retval = ftruncate (psf->file.filedes, len + psf->fileoffset) ;
 
 	if (retval == -1)
 		psf_log_syserr (psf, errno) ;
@@ -1187,7 +1188,8 @@ psf_ftruncate (SF_PRIVATE *psf, sf_count_t len)
 	if (psf->virtual_io)
 		return -1 ;
 
-	liDistanceToMove.QuadPart = (sf_count_t) len ;
+	/* len is relative to the start of the (possibly embedded) sound file. */
+	liDistanceToMove.QuadPart = (sf_count_t) len + psf->fileoffset ;
 
 	fResult = SetFilePointerEx (psf->file.handle, liDistanceToMove, NULL, FILE_BEGIN) ;
 
